@@ -158,7 +158,7 @@ class DictArray(StorageBase):
 
     def mask_linear(self) -> list[bool]:
         """Return a list of booleans indicating which elements are missing."""
-        return list(self.mask.data[:].flat)
+        return list(self.mask.data.flat)
 
     def dump(self, key: tuple[int | slice, ...], value: Any) -> None:
         """Dump 'value' into the location associated with 'key'.
@@ -213,7 +213,7 @@ def _masked_empty(shape: tuple[int, ...]) -> np.ndarray:
     # sets the elements to 0.0.
     x: np.ndarray = np.empty((1,), dtype=object)
     x[0] = np.ma.masked
-    return np.tile(x, shape)
+    return np.tile(x, shape).reshape(shape)  # reshape: np.tile returns shape (1,) for shape ()
 
 
 class SharedMemoryDictArray(DictArray):
